@@ -3,6 +3,7 @@ package props
 import (
 	"encoding/json"
 	"fmt"
+	"io"
 	"os"
 	"path/filepath"
 	"sync"
@@ -78,6 +79,14 @@ func raceRun(seed, run uint64, dir string) {
 	}
 	db := pe.DB
 	db.MaxBatchDelay = time.Millisecond
+	hasClose := false
+	for _, steps := range clients {
+		for _, st := range steps {
+			if st.Kind == "close" {
+				hasClose = true
+			}
+		}
+	}
 	var wg sync.WaitGroup
 	for _, steps := range clients {
 		steps := steps
@@ -90,11 +99,33 @@ func raceRun(seed, run uint64, dir string) {
 				switch st.Kind {
 				case "stats":
 					_ = db.Stats()
+					// the other database-level entry points that may be called from any goroutine
+					// (only in workloads without a Close task: an accessor or Sync racing with Close is use of a database
+					// that is being closed, which the documentation does not promise to be safe - see DESIGN, false alarms)
+					if !hasClose {
+						_ = db.String()
+						_ = db.IsReadOnly()
+						if si%2 == 1 {
+							_ = db.Sync()
+						}
+					}
 				case "close":
 					_ = db.Close()
 				case "hold":
 					if tx, err := db.Begin(false); err == nil {
 						_ = e.Dump(tx)
+						switch (si + st.Reader) % 4 {
+						case 1:
+							_, _ = tx.WriteTo(io.Discard) // hot backup while writers commit
+						// (Tx.Check on a read-only transaction is documented as not safe while write transactions
+						// run - it reads the live free list - so it is not part of this workload)
+						case 3:
+							_ = tx.Stats()
+							_ = tx.Size()
+							// DB.Info hands out the raw mapping address ("use carefully, or not at all"): it is only
+							// meaningful while a transaction pins the mapping, so that is the only way it is called here
+							_ = db.Info()
+						}
 						_ = tx.Rollback()
 					}
 				case "tx":
